@@ -1,8 +1,10 @@
 #!/bin/bash
 # Runs each seeded change in /verif/seeded against its property's check (quick) and records which signatures fired.
+#   SEEDLIST=<file with one seed name per line> restricts the run (used by pmatrix.sh)
 cd /verif
 for d in seeded/C*/; do
   name=$(basename $d); id=${name%%-*}
+  if [ -n "$SEEDLIST" ] && ! grep -qx "$name" "$SEEDLIST"; then continue; fi
   out=$(/verif/seedrun.sh /verif/$d/patch.diff $id 2>&1)
   sigs=$(echo "$out" | grep -- '--- ' | sed 's/.*sig=//' | tr '\n' ';')
   echo "$name: $(echo "$out" | grep '^==' | tr '\n' ' ') $sigs"
